@@ -214,6 +214,32 @@ def spec_check(c, out, objs):
     return None
 
 
+def gen_requests(rnd):
+    """a sequence of delete_symbol requests: 4 symbols of the module, 2 of another module, repeated with varying force flags"""
+    return [(rnd.randrange(6) if rnd.random() < 0.25 else rnd.randrange(4), rnd.random() < 0.5) for _ in range(rnd.randint(1, 7))]
+
+
+def run_requests(reqs):
+    import gtirb
+    import gtirb_rewriting
+    ir = gtirb.IR()
+    m = gtirb.Module(name="m", isa=gtirb.Module.ISA.X64, file_format=gtirb.Module.FileFormat.ELF, ir=ir)
+    other = gtirb.Module(name="o", isa=gtirb.Module.ISA.X64, file_format=gtirb.Module.FileFormat.ELF, ir=ir)
+    syms = [gtirb.Symbol(f"s{i}", module=m) for i in range(4)] + [gtirb.Symbol(f"f{i}", module=other) for i in range(2)]
+    ctx = gtirb_rewriting.RewritingContext(m, [])
+    outs = []
+    for k, f in reqs:
+        try:
+            ctx.delete_symbol(syms[k], force=f)
+            outs.append("1")
+        except ValueError:
+            outs.append("0")
+    sid = {id(x): i for i, x in enumerate(syms)}
+    rec = ",".join(f"{sid[id(sy)]}:{1 if o.force else 0}" for sy, o in ctx._symbol_deletions.items())
+    line = "delreqs 6 1 1 1 1 0 0 " + f"{len(reqs)} " + " ".join(f"{k} {1 if f else 0}" for k, f in reqs)
+    return line, "outs " + ",".join(outs) + " | recorded " + rec
+
+
 class C19(Prop):
     id = "C19"
     gens = []
@@ -240,6 +266,13 @@ class C19(Prop):
         self._impl = list(zip(cases, impl))
         got = C.run_driver("sym", lines)
         dis = [{"case": l, "implementation": o, "model": g} for l, (o, _), g in zip(lines, impl, got) if o != g]
+        # the request layer of RewritingContext against Sym/DeleteRequests.v
+        rnd = C.rng("c19-requests")
+        rq = [gen_requests(rnd) for _ in range({"quick": 600, "thorough": 5000}[tier])]
+        rruns = [run_requests(r) for r in rq]
+        rgot = C.run_driver("sym", [l for l, _ in rruns])
+        dis += [{"case": l, "implementation": o, "model": g} for (l, o), g in zip(rruns, rgot) if o != g]
+        lines = lines + [l for l, _ in rruns]
         errs = sum(1 for o, _ in impl if o.startswith("err"))
         samples = [{"case": l[:200], "result": o[:200]} for l, (o, _) in list(zip(lines, impl))[:4]]
         return dict(evaluations=len(lines), distinct_nontrivial=len(set(lines)), samples=samples, disagreements=dis[:20],
